@@ -257,8 +257,43 @@ func (c *Ctx) checkDispatchShape(lazy []core.TableEntry) {
 					if isLookupOK(cond) {
 						return false, true
 					}
+					// array table: the data type is out of range (dt < 0, dt >= N)
+					if bo, ok := cond.(*ssa.BinOp); ok && isIntegerType(bo.X.Type()) {
+						if _, isK := core.ConstInt(bo.Y); isK && (bo.Op == token.LSS || bo.Op == token.GEQ || bo.Op == token.GTR) && len(c.G.FieldTables) > 0 {
+							return true, true
+						}
+					}
 					return false, false
 				}) {
+					missOK = true
+				}
+			}
+		}
+		if !missOK && len(c.G.FieldTables) > 0 {
+			// array table: the (nil, error) return is entered only from out-of-range edges (dt < 0, dt >= N), possibly several
+			for _, ret := range core.Returns(fn) {
+				rr := core.ResolvedResults(ret)
+				if !core.IsNilConst(rr[0]) || core.IsNilConst(rr[errIdx]) || len(ret.Block().Preds) == 0 {
+					continue
+				}
+				all := true
+				for _, p := range ret.Block().Preds {
+					iff := core.BlockIf(p)
+					if iff == nil || len(p.Succs) != 2 || p.Succs[0] != ret.Block() {
+						all = false
+						break
+					}
+					bo, ok := iff.Cond.(*ssa.BinOp)
+					if !ok || !isIntegerType(bo.X.Type()) || !(bo.Op == token.LSS || bo.Op == token.GEQ || bo.Op == token.GTR) {
+						all = false
+						break
+					}
+					if _, isK := core.ConstInt(bo.Y); !isK {
+						all = false
+						break
+					}
+				}
+				if all {
 					missOK = true
 				}
 			}
